@@ -417,7 +417,9 @@ func groupSelectionSetForNodeField(ctx *PlanningContext, selectionSet ast.Select
 
 func addIDFieldToSelectionSet(selectionSet ast.SelectionSet) ast.SelectionSet {
 	return append(ast.SelectionSet{&ast.Field{
-		Name: common.IDFieldName,
+		// the response key, so that it is told apart from the other helper field and from client's fields
+		Alias: common.IDFieldName,
+		Name:  common.IDFieldName,
 		Definition: &ast.FieldDefinition{
 			Type: &ast.Type{
 				NamedType: common.IDFieldName,
@@ -429,7 +431,8 @@ func addIDFieldToSelectionSet(selectionSet ast.SelectionSet) ast.SelectionSet {
 
 func addTypenameFieldToSelectionSet(selectionSet ast.SelectionSet) ast.SelectionSet {
 	return append(ast.SelectionSet{&ast.Field{
-		Name: common.TypenameFieldName,
+		Alias: common.TypenameFieldName,
+		Name:  common.TypenameFieldName,
 		Definition: &ast.FieldDefinition{
 			Type: &ast.Type{
 				NamedType: "String",
